@@ -33,6 +33,17 @@ CHECKS.update({
             "DESIGN.md §4 C11"),
 })
 
+CHECKS.update({
+    "C01": ("simquic+sched", "conservation/equality runtime monitor at the client<->server API boundary over a simulated QUIC transport with PRNG-driven chunking, back-pressure and task order; quiescence-based hang oracle; online RFC 9114 wire checker",
+            "Real h3 client and server exchange generated well-formed messages over the simulated transport; every API result on the receiving side is compared with what the sender was given, every call must return and nothing may be pending at quiescence, every stream's bytes are parsed by the reference. Thousands of (message, chunking, schedule) combinations per run; held-on-observed.",
+            "Trusts the simulator's transport contract (DESIGN.md §1) and the reference parser; inputs limited to what the http crate does not normalise.",
+            "DESIGN.md §4 C01"),
+    "C02": ("codec", "differential runtime monitor: h3::frame::FrameStream driven the documented way over a scripted RecvStream vs the reference segmenter, for ALL chunkings of short strings (complete enumeration of frame shapes x varint forms x truncations) and sampled chunkings of long ones; chunking-independence cross-check",
+            "For every (byte string, ending, chunking) executed the event sequence (frames, DATA bytes, terminal status and error code) must equal the reference's and be the same for every chunking. Single frames with all varint forms and all pairs with minimal forms are enumerated completely, strings up to 9 B (quick) / 12 B (thorough) are cut in all 2^(n-1) ways. Held-on-observed.",
+            "Trusts refimpl/frames.rs; error codes are taken from h3's own mapping functions; documented don't-care zones (overlapping rules, early detection) accept several codes.",
+            "DESIGN.md §4 C02"),
+})
+
 NOT_YET = {}
 
 def main():
